@@ -5,7 +5,7 @@ V = os.path.dirname(os.path.dirname(os.path.abspath(__file__)))
 TECH = "Lean 4 proof over a model with tables regenerated from source + differential correspondence (real code vs compiled Lean driver) + search against executable Lean spec"
 CLAIMED = {
  "C16": ("4.16",
-  "Theorem c16_iff (Lean 4, all strings, both directions): the model of detect_parser_type classifies a URI as ecosystem k iff the URI names a supported manifest of k (declarative spec); corollaries: none iff unsupported, functional (never another ecosystem's rules), workflow priority, executable spec = model; at the server level (Props/C16Server.lean, over the backend model of C13/C14/C18): c16_unsupported_silent (for a URI that names no supported manifest an edit publishes nothing, starts no fetch, changes no cache row, remembers no package, and no code action is offered - whatever the text and the server state), c16_own_rules (a supported document of ecosystem k is published once per edit with the diagnosis of k's registry rows), c16_publishes_only_own_uri. Tables regenerated from src/parser/types.rs on every run; model run against the real detect_parser_type on 7k-60k generated URIs (full product of prefixes x look-alike names).",
+  "Theorem c16_iff (Lean 4, all strings, both directions): the model of detect_parser_type classifies a URI as ecosystem k iff the URI names a supported manifest of k (declarative spec); corollaries: none iff unsupported, functional (never another ecosystem's rules), workflow priority, executable spec = model; at the server level (Props/C16Server.lean, over the backend model of C13/C14/C18): c16_unsupported_silent (for a URI that names no supported manifest an edit publishes nothing, starts no fetch, changes no cache row, remembers no package, and no code action is offered - whatever the text and the server state), c16_own_rules (a supported document of ecosystem k is published once per edit with the diagnosis of k's registry rows), c16_publishes_only_own_uri; c16_tables_consistent (kernel-evaluated over the tables regenerated from the source: RegistryType::as_str and from_str are inverse, every detectable kind is a known registry type with exactly one documented registries.<key>.enabled switch, no switch names an unknown kind) and c16_detected_has_switch. Tables regenerated from src/parser/types.rs on every run; model run against the real detect_parser_type on 7k-60k generated URIs (full product of prefixes x look-alike names).",
   "Trusted: Lean kernel; tools/extract.py pattern extraction of the suffix/dir tables; Text.lean model of str::ends_with/contains/match_indices (validated by the correspondence stream). The resolver-table consistency (parser/matcher/registry of one ecosystem) is tied by correspondence only; the backend model used by the server-level corollaries is tied to the real Backend by the C13, C14 and C18 streams (supported documents of every ecosystem; the C18 stream also opens and edits an unsupported readme.md)."),
  "C03": ("4.3",
   "Theorems over all version lists (Lean 4): tag wins; result is a member; never a prerelease when ignored; SemVer-highest among kept (c03_is_max); none iff nothing kept; c03_set_invariant: any two fill histories leaving the same SET of version strings (any order, batching, repetition) give cmp-equal latest — proved from the total-preorder instance of the semver Ord model (core TransCmp combinators); monotonicity: c03_grow_mono / c03_append_mono (a superset of version strings never yields a SemVer-lower latest), c03_ignore_le (ignoring prereleases never raises the answer), c03_setting_irrelevant_on_stable; over whole cache HISTORIES (Props/C03History.lean, corollaries of the C08 refinement): c03_history (two arbitrary operation histories - any order, batching, claims, marks, re-opens, other packages and registries interleaved - that stored the same set of versions and the same last non-empty tag map under a key give the same latest: same string when it is the tag, cmp-equal otherwise), c03_isolation (operations on other packages or on the same name under another registry never change it), c03_history_mono. Executable acceptance predicate proved to accept the model (c03_acceptable) and used to judge the real get_latest_version on real SQLite rows for random fill histories, plus metamorphic order pairs.",
